@@ -50,8 +50,9 @@ def ref_vt(name: str) -> bytes:
 class Peer:
     """bind -> bind_ack (one leg); request -> logs W, unseals independently, answers with a sealed response"""
 
-    def __init__(self, mode: str, sig: int, sign: bool, reply_stub: bytes = b"OK", reply_pad: t.Optional[int] = None) -> None:
+    def __init__(self, mode: str, sig: int, sign: bool, reply_stub: bytes = b"OK", reply_pad: t.Optional[int] = None, reply_reserved: int = 0) -> None:
         self.mode, self.sig, self.sign = mode, sig, sign
+        self.reply_reserved = reply_reserved  # auth_reserved octet of the reply trailer: zero on send by the letter, but ignored on receipt
         self.reply_stub, self.reply_pad = reply_stub, reply_pad
         self.requests: t.List[bytes] = []
         self.unsealed: t.List[t.Any] = []
@@ -104,7 +105,7 @@ class Peer:
             sig_len = self.ctx.query_message_sizes().header
             total = 24 + len(body) + 8 + sig_len
             hdr = rpc.header(rpc.RESPONSE, 3, total, sig_len, d["call_id"]) + struct.pack("<IHBB", len(body), d["ctx_id"], 0, 0)
-            trailer = struct.pack("<BBBBI", self.auth_type, 6, pad, 0, 0)
+            trailer = struct.pack("<BBBBI", self.auth_type, 6, pad, self.reply_reserved, 0)
             res = self.ctx.wrap_iov([(ty, hdr), body, (ty, trailer), siov.BufferType.header], encrypt=True, qop=None)
             self.sealed_reply = hdr + (res.buffers[1].data or b"") + trailer + (res.buffers[3].data or b"")
             return [self.sealed_reply]
@@ -125,7 +126,9 @@ def exchange(api: str, peer: Peer, stub: bytes, vt, ctx_id: int = 0, opnum: int 
     user, pw = (secctx.NTLM_USER, secctx.NTLM_PASS) if peer.mode == "ntlm" else ("u", "p")
 
     def factory(u, p, **kw):
-        return secctx.ScriptedContext([b"CLI1"], peer.sig)
+        c_ = secctx.ScriptedContext([b"CLI1"], peer.sig)
+        c_.fail_wrap_at = dict(getattr(peer, "client_wrap_failures", {}))
+        return c_
 
     import contextlib
 
@@ -135,7 +138,14 @@ def exchange(api: str, peer: Peer, stub: bytes, vt, ctx_id: int = 0, opnum: int 
             c = create_rpc_connection("dc", 49664, username=user, password=pw, auth_protocol="ntlm")
             try:
                 c.bind(contexts=contexts())
-                if isinstance(stub, list):
+                if isinstance(stub, list) and getattr(peer, "client_wrap_failures", None):
+                    r = []
+                    for s_ in stub:  # a failing request does not end the sequence: the caller may go on using the connection
+                        try:
+                            r.append(c.request(ctx_id, opnum, s_, verification_trailer=vt))
+                        except Exception as e_:  # noqa: BLE001
+                            r.append(e_)
+                elif isinstance(stub, list):
                     r = [c.request(ctx_id, opnum, s_, verification_trailer=vt) for s_ in stub]
                 else:
                     r = c.request(ctx_id, opnum, stub, verification_trailer=vt)
@@ -147,6 +157,14 @@ def exchange(api: str, peer: Peer, stub: bytes, vt, ctx_id: int = 0, opnum: int 
                 c = await async_create_rpc_connection("dc", 49664, username=user, password=pw, auth_protocol="ntlm")
                 try:
                     await c.bind(contexts=contexts())
+                    if isinstance(stub, list) and getattr(peer, "client_wrap_failures", None):
+                        r_ = []
+                        for s_ in stub:
+                            try:
+                                r_.append(await c.request(ctx_id, opnum, s_, verification_trailer=vt))
+                            except Exception as e_:  # noqa: BLE001
+                                r_.append(e_)
+                        return r_
                     if isinstance(stub, list):
                         return [await c.request(ctx_id, opnum, s_, verification_trailer=vt) for s_ in stub]
                     return await c.request(ctx_id, opnum, stub, verification_trailer=vt)
@@ -251,6 +269,7 @@ def shards(tier: str, seed: int):
         for sig in (16, 60):
             for sign in (True, False):
                 out.append(["seq", api, sig, sign])
+                out.append(["fault", api, sig, sign])
     return out
 
 
@@ -299,12 +318,46 @@ def run_shard(shard, tier, seed, acc) -> None:
                             acc.violate("seq.reply.stub", case + [i], {"got": bytes(rs[i].stub_data).hex()[:80]})
                     n += 1
         acc.sample({"api": api, "signature_size": sig, "three requests on one connection": "stub residues (a, b, a) for all a,b in 0..15"})
+    elif what == "fault":
+        # a transient error of the security provider in the k-th wrap call: that request fails with the provider's error and is NOT
+        # sent; every other request on the connection is framed and sealed exactly as without the failure
+        _, _, sig, sign = shard
+        lens = [44, 0, 17, 64, 3]
+        for vt_name in ("off", "isd"):
+            for k in range(len(lens)):
+                for exc in ("ContextExpiredError", "OperationNotAvailableError"):
+                    stubs = [d.bytes(ln) for ln in lens]
+                    peer = Peer("scripted", sig, sign)
+                    peer.client_wrap_failures = {k: exc}
+                    case = ["fault", api, sig, sign, vt_name, k, exc]
+                    try:
+                        rs, cctx = exchange(api, peer, stubs, vts()[vt_name], 0, 0)
+                    except Exception as e:  # noqa: BLE001
+                        acc.violate(f"fault.exc.{type(e).__name__}", case, {"exc": repr(e)})
+                        n += 1
+                        continue
+                    n += 1
+                    if not isinstance(rs[k], Exception) or type(rs[k]).__name__ != exc:
+                        acc.violate("fault.provider-error-not-surfaced", case, {"result": repr(rs[k])[:200], "requests_on_the_wire": len(peer.requests)})
+                    sent = [s_ for i_, s_ in enumerate(stubs) if i_ != k]
+                    if len(peer.requests) != len(sent):
+                        acc.violate("fault.requests-on-the-wire", case, {"on_the_wire": len(peer.requests), "expected": len(sent)})
+                        continue
+                    if cctx is not None and len(cctx.wraps) == len(stubs):
+                        cctx.wraps.pop(k)  # the call that raised
+                    for i_, s_ in enumerate(sent):
+                        check_request(acc, case + [i_], peer, cctx, s_, vt_name, 0, 0, index=i_)
+                    acc.outcome("fault:contained")
+        acc.sample({"api": api, "signature_size": sig, "header_signing": sign, "provider failure": "in wrap call k = 0..4 of 5 requests on one connection"})
     elif what == "reply":
         sig = shard[2]
         for ln in range(0, 81):
+          for rsv in (0, 1, 0x80, 0xFF):
             for pad in range(16):
-                peer = Peer("scripted", sig, True, reply_stub=d.bytes(ln), reply_pad=pad)
-                case = ["reply", api, sig, ln, pad]
+                if rsv and (ln + pad) % 16:
+                    continue
+                peer = Peer("scripted", sig, True, reply_stub=d.bytes(ln), reply_pad=pad, reply_reserved=rsv)
+                case = ["reply", api, sig, ln, pad] + ([rsv] if rsv else [])
                 try:
                     r, cctx = exchange(api, peer, b"req", None)
                 except Exception as e:  # noqa: BLE001
@@ -345,12 +398,14 @@ def run_shard(shard, tier, seed, acc) -> None:
             variants = [(pad, "padded", 0) for pad in list(range(16)) + [None, 16, 28, 255]]
             variants += [(None, ah, fill) for ah in ("padded", "unpadded", "zero", "16", "max") for fill in (0, 0xE7)]
             variants += [(pad, ah, 0xE7) for pad in (0, 4, 8, 12, 20) for ah in ("unpadded", "16")]
-            for pad, ah, fill in variants:
+            variants += [(None, "padded", 0, rsv) for rsv in (1, 0x80, 0xFF)]
+            for pad, ah, fill, *more in variants:
                 dc = refdc.DC([rk], now=(361, 10, 12), domain=dom, forest=dom)
+                dc.reply_reserved = more[0] if more else 0
                 dc.reply_pad = pad
                 dc.reply_alloc_hint = ah
                 dc.reply_pad_fill = fill
-                case = ["api-pad", api, dl, pad, ah, fill]
+                case = ["api-pad", api, dl, pad, ah, fill] + list(more)
                 with transport.network(dc), secctx.scripted_client(lambda u, p, **kw: secctx.ScriptedContext([b"C1"], 16)):
                     try:
                         kw = dict(server="dc", username="u", password="p", auth_protocol="ntlm")
@@ -394,8 +449,8 @@ def replay(case, seed, acc) -> None:
             check_request(acc, case, peer, cctx, stub, vt_name, 0, 7 if l_ % 2 else 0)
             check_reply(acc, case, peer, cctx, r)
     elif what == "reply":
-        _, _, sig, ln, pad = case
-        peer = Peer("scripted", sig, True, reply_stub=bytes(ln), reply_pad=pad)
+        _, _, sig, ln, pad = case[:5]
+        peer = Peer("scripted", sig, True, reply_stub=bytes(ln), reply_pad=pad, reply_reserved=case[5] if len(case) > 5 else 0)
         try:
             r, cctx = exchange(api, peer, b"req", None)
             check_reply(acc, case, peer, cctx, r)
@@ -403,7 +458,7 @@ def replay(case, seed, acc) -> None:
             if (ln + pad) % 16 == 0:
                 acc.violate(f"reply.exc.{type(e).__name__}", case, {"exc": repr(e)})
     else:
-        run_shard([what, api] + (list(case[2:4]) if what == "seq" else []), "quick", seed, acc)
+        run_shard([what, api] + (list(case[2:4]) if what in ("seq", "fault") else []), "quick", seed, acc)
         for k in list(acc.violations):
             acc.violations[k] = [e for e in acc.violations[k] if e["case"] == case]
             if not acc.violations[k]:
